@@ -228,9 +228,13 @@ def eval_case(job):
             ff_cal = tmv(p10(c['fi']), p10(c['fa']), p10(c['fc']), p10(c['fc']) * 2)
             x_ei = tmv(p10(c['ei']), p10(c['ea']), p10(c['ec']), p10(c['et']))
             ff = p10(c['lf'])
-            got = float(EI_HCCO(np.array([ff]), x_ei, ff_cal, Tamb=np.array([288.15]), Pamb=np.array([101325.0]))[0])
+            ffa, cal0, xei0 = np.array([ff]), [float(x) for x in ff_cal.as_array()], [float(x) for x in x_ei.as_array()]
+            got = float(EI_HCCO(ffa, x_ei, ff_cal, Tamb=np.array([288.15]), Pamb=np.array([101325.0]))[0])
             if not (math.isfinite(got) and got >= 0):
                 return [('hcco:not-finite-nonnegative', f'EI = {got} for {c}')]
+            # (EI.tla ArgumentsAreValues)
+            if ffa[0] != ff or [float(x) for x in ff_cal.as_array()] != cal0 or [float(x) for x in x_ei.as_array()] != xei0:
+                return [('hcco:argument-modified', f'EI_HCCO changed an argument: fuel flow {ff} -> {ffa[0]}, calibration flows {cal0} -> {[float(x) for x in ff_cal.as_array()]}, certification indices {xei0} -> {[float(x) for x in x_ei.as_array()]}')]
             if o['acrp']:
                 got = got / (1.0 + 52.0 * (p10(c['fi']) - ff))
             lg = math.log10(got) if got > 0 else -math.inf
@@ -253,9 +257,14 @@ def eval_case(job):
             ei = tmv(*(10.0 ** c[k] for k in ('e1', 'e2', 'e3', 'e4')))
             ev = np.array([1e-3, 0.1, 1.0, 10.0, 0.0])  # EI.tla NoxEvalExps (the last: a non-positive flow)
             amb = dict(Tamb=np.full(5, 288.15), Pamb=np.full(5, 101325.0))
+            ev0, ffp0 = ev.copy(), [float(x) for x in ffp.as_array()]
             r = BFFM2_EINOx(ev, ei, ffp, **amb)
             n = np.asarray(r.NOxEI, float)
             devs = []
+            # EI.tla ArgumentsAreValues: the functions are functions - the arrays and tables handed to them are read, never
+            # written (the caller evaluates HC and CO on the same fuel-flow array next)
+            if not np.array_equal(ev, ev0) or [float(x) for x in ffp.as_array()] != ffp0:
+                return [('nox:argument-modified', f'BFFM2_EINOx changed its fuel-flow argument from {ev0.tolist()} to {ev.tolist()} (calibration flows {ffp0} -> {[float(x) for x in ffp.as_array()]})')]
             if not (np.all(np.isfinite(n)) and np.all(n >= 0)):
                 return [('nox:not-finite-nonnegative', f'NOxEI = {n} for {c}')]
             if np.any(n <= 0):
